@@ -23,7 +23,7 @@ def install_shims():
 
 # ------------------------------------------------------------------------------------------------ backoff arithmetic
 OUTCOMES = ("work", "noop", "backoff", "exc", "baseexc")
-PARAMS = [(0.01, 1.0, 2.0), (1.0, 15.0, 2.0), (0.5, 0.5, 3.0), (0.1, 10.0, 1.0)]
+PARAMS = [(0.01, 1.0, 2.0), (1.0, 15.0, 2.0), (0.5, 0.5, 3.0), (0.1, 10.0, 1.0), (0.1, 1.0, 3.0)]
 IDLE = 0.25
 
 
@@ -350,7 +350,7 @@ def jobs(tier):
 def main(tier):
     rep = report.Report(PROP, tier,
                         rule="(a) backoff arithmetic: every outcome sequence of length <=5 (6 thorough) over {did work, nothing "
-                             "happened, backoff(), exception, BaseException} x 4 (min,max,mult) triples on the real Runnable.run under a "
+                             "happened, backoff(), exception, BaseException} x 5 (min,max,mult) triples on the real Runnable.run under a "
                              "virtual clock; (b) stop/start/wake races: 6 scenarios on real threads under a controlled scheduler with a "
                              "scheduling point at every source line of runnable.py and every Event/Thread operation, all schedules with "
                              "<=2 (3 thorough) preemptions; (c) NotificationManager (two producers, a raising handler, stop) and "
